@@ -15,7 +15,10 @@
    scope), [check_obs] what an observed result has to satisfy, and [spec_check]
    runs all of that over an observed trace: it is the oracle applied to what
    the implementation did.  [reach] is the set of (model state, ghost) pairs
-   reachable by API-respecting programs; the theorems quantify over it. *)
+   reachable by API-respecting programs; the theorems quantify over it.
+   A leave of a scope that is not the innermost one is outside [api_okb] (the
+   LIFO guard of the theorems) but inside the property: the oracle judges it by
+   the property's reading ([nonlifo_leave], [gleave_only], R_NONLIFO). *)
 From Robsd Require Import Base.Bytes Arena.ArenaDefs.
 Local Open Scope N_scope.
 
@@ -38,8 +41,13 @@ Definition b_off (b : gblock) : N := snd (b_loc b).
 Definition b_fi (b : gblock) : nat := fst (b_loc b).
 Definition b_end (b : gblock) : N := snd (b_loc b) + b_size b.
 
+(* block b is what arena_realloc(s, p, size, _) names: a user block at p of exactly [size] bytes,
+   or of MORE than [size] > 0 bytes (vector.c names sizeof(struct vector) + len * stride, the USED
+   part of its block; arena_realloc then copies only that part).  size = 0 names only a zero-size
+   block, so that the block meant is determined (two live blocks share an address only when the
+   older one has size 0). *)
 Definition is_user_at (p : loc) (size : N) (b : gblock) : bool :=
-  negb (b_node b) && loc_eqb (b_loc b) p && (b_size b =? size).
+  negb (b_node b) && loc_eqb (b_loc b) p && ((b_size b =? size) || ((0 <? size) && (size <? b_size b))).
 
 Fixpoint remove_first {A} (f : A -> bool) (l : list A) : list A :=
   match l with
@@ -95,11 +103,14 @@ Definition must_trap (c : cfg) (o : op) : bool :=
 (* ---- the parts of [api_okb], by name ---------------------------------------------------------
    [api_okb g o = lifo_okb o && client_okb g o] (ArenaLive.v, api_okb_split):
    - [lifo_okb]: scopes are left innermost first (well-bracketed enter/leave, what the
-     arena_scope() macro enforces).  A leave of an enclosing scope ends the scopes nested
-     in it; C19 speaks of nested scopes, so such sequences are outside the property
-     (what the code does with them: ArenaHoles.v, nonlifo_leave_reuse).
+     arena_scope() macro enforces).  The property quantifies over ALL sequences of
+     enter/leave, so a leave of an enclosing scope is INSIDE it; the theorems over [reach]
+     are the _partial statements under this guard, the _refuted witnesses outside it are
+     ArenaHoles.nonlifo_leave_reuse / hits_header, and the oracle judges such a leave by
+     the property's reading ([nonlifo_leave], [gleave_only], R_NONLIFO below).
    - [client_okb]: the scope named is open, the arena has not been freed, realloc names a
-     live block with its true size, client writes stay inside live user blocks. *)
+     live user block with its size or with a positive part of it ([is_user_at]), client
+     writes stay inside live user blocks. *)
 Definition lifo_okb (o : op) : bool :=
   match o with LeaveAt k => Nat.eqb k 0 | _ => true end.
 
@@ -115,7 +126,8 @@ Definition well_bracketed (ops : list op) : Prop := Forall (fun o => lifo_okb o 
    Shrinking a live block of an inner scope through an outer scope: the result would
    belong to the outer scope but lies above the inner scope's mark.  The arena has to
    refuse it (it does since 4eb1227: [c_sv]); [api_full] is [api_okb] plus this call,
-   i.e. realloc of ANY live user block with its true size through ANY open scope. *)
+   i.e. realloc of ANY live user block, named with its size or a positive part of it,
+   through ANY open scope. *)
 Definition outer_shrink (g : ghost) (o : op) : bool :=
   match o with
   | Realloc k (Some p) old new =>
@@ -223,6 +235,10 @@ Definition R_LEN_RESET : N := 13.
 Definition R_BAD_HANDLE : N := 14.
 Definition R_OUTSIDE_API : N := 15.   (* not a violation: the program left the API at this operation *)
 Definition R_OUTER_SHRINK : N := 16.  (* a shrinking realloc of an inner block through an outer scope returned *)
+Definition R_NONLIFO : N := 17.       (* after a leave of a scope that is not the innermost one: a block of a scope still
+                                         open was handed out again / freed / changed, the frame header was handed out,
+                                         or the "len = 0" branch was taken *)
+Definition R_OUTER_GROW : N := 18.    (* a growing realloc through a scope that is not the innermost one returned *)
 
 (* the verdict on an operation that returned although [api_okb] does not hold *)
 Definition outside_code (g : ghost) (o : op) : N :=
@@ -242,11 +258,11 @@ Definition check_obs (c : cfg) (g : ghost) (o : op) (ob : oobs) : N :=
   if negb (o_intact ob) then R_CONTENTS_CHANGED else
   match o with
   | Enter => match o_ev ob with EUnit => 0 | _ => R_BAD_EVENT end
-  | LeaveAt _ =>
+  | LeaveAt k =>
       match o_ev ob with
       | ELeave toks reset =>
           if reset then R_LEN_RESET
-          else if list_eqb toks (hd [] (g_scopes g)) then 0 else R_CLEANUPS
+          else if list_eqb toks (nth k (g_scopes g) []) then 0 else R_CLEANUPS
       | _ => R_BAD_EVENT
       end
   | Realloc k src old new =>
@@ -273,65 +289,124 @@ Definition check_obs (c : cfg) (g : ghost) (o : op) (ob : oobs) : N :=
       end
   end.
 
-(* how the run ended, given the operation that did not return (if any) *)
-Definition check_ending (c : cfg) (g : ghost) (last : option op) (e : ending) : N :=
+(* ---- a leave of a scope that is not the innermost one ------------------------------------------
+   C19 quantifies over all sequences of enter/leave and says "leaving a scope invalidates only
+   that scope's blocks"; arena_scope_enter/arena_scope_leave are exported next to the
+   block-structured arena_scope() macro.  So [LeaveAt k] with 0 < k < depth is INSIDE the
+   property although outside [api_okb] (the LIFO guard of the theorems).  The oracle judges it
+   by the property's reading [gleave_only]: the blocks of scope k die, the blocks of the k
+   scopes still open stay live (their nesting level drops by one), the cleanups that run are
+   the ones of scope k.  A trap at the leave (or at any later operation) counts as detection;
+   a crash of a later operation is a manifestation of the undetected leave (R_NONLIFO).
+   What the code does instead: ArenaHoles.nonlifo_leave_reuse, hits_header. *)
+Definition nonlifo_leave (g : ghost) (o : op) : option nat :=
+  match o with
+  | LeaveAt k => if (0 <? k)%nat && (k <? depth g)%nat then Some k else None
+  | _ => None
+  end.
+
+Definition gleave_only (g : ghost) (k : nat) : ghost :=
+  let l := lvl_of g k in
+  mkG (flat_map (fun b => if Nat.eqb (b_lvl b) l then []
+                          else if (l <? b_lvl b)%nat then [mkB (b_loc b) (b_size b) (b_lvl b - 1) (b_node b)]
+                          else [b]) (g_blocks g))
+      (remove_nth k (g_scopes g)) (g_freed g).
+
+(* after such a leave the geometric verdicts are manifestations of it: they get its signature *)
+Definition nl_map (nl : bool) (r : N) : N :=
+  if nl && ((r =? R_OVERLAP) || (r =? R_OUTSIDE_FRAME) || (r =? R_CONTENTS_CHANGED) || (r =? R_LEN_RESET))
+  then R_NONLIFO else r.
+
+Definition growing (o : op) : bool :=
+  match o with Realloc _ (Some _) old new => old <? new | _ => false end.
+
+(* arena_realloc refused the call (EFAULT): nothing changed; the walk goes on *)
+Definition refused (o : op) (ob : oobs) : bool :=
+  match o, o_ev ob with Realloc _ _ _ _, EPtr None => true | _, _ => false end.
+
+(* how the run ended, given the operation that did not return (if any); [nl]: a scope that was
+   not the innermost one has been left before - a trap then counts as (late) detection *)
+Definition check_ending (c : cfg) (nl : bool) (g : ghost) (last : option op) (e : ending) : N :=
   match e, last with
   | Done, None => 0
   | Done, Some _ => R_BAD_EVENT
-  | Trapped, Some o => if negb (api_okb g o) then 0 else if must_trap c o then 0 else R_UNEXPECTED_TRAP
-  | Exited, Some o => if negb (api_okb g o) then 0
+  | Trapped, Some o => if nl then 0
+                       else match nonlifo_leave g o with Some _ => 0 | None =>
+                            if negb (api_okb g o) then 0 else if must_trap c o then 0 else R_UNEXPECTED_TRAP end
+  | Exited, Some o => match nonlifo_leave g o with Some _ => R_UNEXPECTED_EXIT | None =>
+                      if negb (api_okb g o) then 0
                       else if must_trap c o then R_OUTER_NOT_DETECTED
-                      else if may_exit c o then 0 else R_UNEXPECTED_EXIT
-  | Crashed, Some o => if negb (api_okb g o) then 0 else R_CRASH
+                      else if may_exit c o then 0 else R_UNEXPECTED_EXIT end
+  | Crashed, Some o => if nl then R_NONLIFO      (* the arena fell over what the undetected leave left behind *)
+                       else match nonlifo_leave g o with Some _ => R_CRASH | None =>
+                            if negb (api_okb g o) then 0 else R_CRASH end
+  | Unmodelled, _ => R_BAD_EVENT          (* an implementation never ends like this *)
   | _, None => R_BAD_EVENT
   end.
 
 (* the observed trace: operations with the pointers as the implementation
    returned them (handles are resolved against the observed results).
    Result: None = nothing to object to; Some (i, reason) = operation i violates
-   the property.  A program that leaves the API is not judged from that point on
-   (reported as Some (i, R_OUTSIDE_API), which spec_ok accepts) - except for the
-   shrinking realloc of an inner block through an outer scope, which the arena has
-   to refuse: when it returns, R_OUTER_SHRINK is a failure. *)
-Fixpoint spec_walk (c : cfg) (g : ghost) (tbl : list (option loc)) (i : nat)
+   the property.  A program that leaves the API (a pointer no block starts at, a
+   write outside live blocks, use after arena_free) is not judged from that point on
+   (reported as Some (i, R_OUTSIDE_API), which spec_ok accepts) - except that
+   * a realloc the arena REFUSED (NULL, EFAULT) changes nothing: the walk goes on;
+   * the shrinking realloc of an inner block through an outer scope has to be refused:
+     when it returns, R_OUTER_SHRINK is a failure;
+   * a leave of a scope that is not the innermost one is judged by the property's
+     reading (above); from then on [nl] is set. *)
+Fixpoint spec_walk (c : cfg) (nl : bool) (g : ghost) (tbl : list (option loc)) (i : nat)
     (tr : list (hop * oobs)) (last : option hop) (e : ending) : option (nat * N) :=
   match tr with
   | [] =>
       match last with
-      | None => if check_ending c g None e =? 0 then None else Some (i, check_ending c g None e)
+      | None => if check_ending c nl g None e =? 0 then None else Some (i, check_ending c nl g None e)
       | Some h =>
           match hop_to_op tbl h with
           | None => Some (i, R_BAD_HANDLE)
-          | Some o => if check_ending c g (Some o) e =? 0 then None else Some (i, check_ending c g (Some o) e)
+          | Some o => if check_ending c nl g (Some o) e =? 0 then None else Some (i, check_ending c nl g (Some o) e)
           end
       end
   | (h, ob) :: rest =>
       match hop_to_op tbl h with
       | None => Some (i, R_BAD_HANDLE)
       | Some o =>
-          if negb (api_okb g o) then Some (i, outside_code g o)
-          else if must_trap c o then Some (i, R_OUTER_NOT_DETECTED)
-          else if negb (check_obs c g o ob =? 0) then Some (i, check_obs c g o ob)
-          else
-            let tbl' := if returns_ptr o then
-                          tbl ++ [match o_ev ob with EPtr p => p | _ => None end]
-                        else tbl in
-            spec_walk c (gstep c g o (o_ev ob)) tbl' (S i) rest last e
+          match nonlifo_leave g o with
+          | Some k =>
+              if negb (check_obs c g o ob =? 0) then Some (i, nl_map true (check_obs c g o ob))
+              else spec_walk c true (gleave_only g k) tbl (S i) rest last e
+          | None =>
+          let tbl' := if returns_ptr o then
+                        tbl ++ [match o_ev ob with EPtr p => p | _ => None end]
+                      else tbl in
+          if negb (api_okb g o) then
+            (if refused o ob then spec_walk c nl g tbl' (S i) rest last e
+             else Some (i, outside_code g o))
+          else if must_trap c o then Some (i, if growing o then R_OUTER_GROW else R_OUTER_NOT_DETECTED)
+          else if negb (check_obs c g o ob =? 0) then Some (i, nl_map nl (check_obs c g o ob))
+          else spec_walk c nl (gstep c g o (o_ev ob)) tbl' (S i) rest last e
+          end
       end
   end.
 
 Definition spec_check (c : cfg) (tr : list (hop * oobs)) (last : option hop) (e : ending)
-  : option (nat * N) := spec_walk c ghost0 [] O tr last e.
+  : option (nat * N) := spec_walk c false ghost0 [] O tr last e.
 
 Definition spec_ok (c : cfg) (tr : list (hop * oobs)) (last : option hop) (e : ending) : bool :=
   match spec_check c tr last e with None => true | Some (_, r) => r =? R_OUTSIDE_API end.
+
+(* the program leaves a scope that is not the innermost one somewhere (a predicate on the CASE) *)
+Definition has_nonlifo (ops : list hop) : bool := existsb nonlifo_hop ops.
 
 (* ---- well-formed configurations ---------------------------------------------------------------- *)
 Definition wf_cfg (c : cfg) : Prop :=
   (exists k, c_ma c = 2 ^ k) /\
   (c_ma c | c_gap c) /\ (c_ma c | c_hdr c) /\ (c_ma c | c_fsz0 c) /\
   0 < c_node c /\
-  c_hdr c + c_gap c <= c_fsz0 c /\ c_fsz0 c < SIZE_LIMIT /\ 0 < c_fsz0 c.
+  c_hdr c + c_gap c <= c_fsz0 c /\ c_fsz0 c < SIZE_LIMIT /\ 0 < c_fsz0 c /\
+  (* the source validates the scope before growing a block in place (08bdded); every theorem
+     that assumes [wf_cfg] is about such a source; [cfg_wf] proves it from the generated switch *)
+  c_gv c = true.
 
 (* frame number i (0 = oldest) of a frame list kept newest first *)
 Fixpoint frame_at (l : list frame) (i : nat) : option frame :=
@@ -344,10 +419,14 @@ Fixpoint frame_at (l : list frame) (i : nat) : option frame :=
 Definition agree (m m' : mem) (b : gblock) : Prop :=
   forall i, i < b_size b -> m' (b_fi b) (b_off b + i) = m (b_fi b) (b_off b + i).
 
-(* a client write that does not touch block b (every other operation qualifies) *)
+(* an operation that does not touch block b on the client's behalf: a client write elsewhere;
+   a realloc that does not name b with fewer bytes than b has (the bytes of b beyond the part
+   named are given up by the caller: when the block grows in place they are "gained" again,
+   indeterminate); every other operation qualifies *)
 Definition fill_misses (o : op) (b : gblock) : Prop :=
   match o with
   | Fill p n _ => n = 0 \/ b_size b = 0 \/ fst p <> b_fi b \/ snd p + n <= b_off b \/ b_end b <= snd p
+  | Realloc _ (Some p) old _ => is_user_at p old b = false \/ b_size b = old
   | _ => True
   end.
 
@@ -415,6 +494,7 @@ Definition fill_missesb (o : op) (b : gblock) : bool :=
   match o with
   | Fill p n _ => (n =? 0) || (b_size b =? 0) || negb (Nat.eqb (fst p) (b_fi b))
                   || (snd p + n <=? b_off b) || (b_end b <=? snd p)
+  | Realloc _ (Some p) old _ => negb (is_user_at p old b) || (b_size b =? old)
   | _ => true
   end.
 
